@@ -178,13 +178,43 @@ class MapSlot(Ref):
 
 
 class FmtArg:
-    def __init__(self, value):
+    def __init__(self, value, ty="", debug=False):
         self.value = value
+        self.ty = ty
+        self.debug = debug
 
 
 class FmtArgs:
     def __init__(self, text):
         self.text = text
+
+
+def rust_float_display(v, single=False):
+    """`{}` of an f64 / f32: the shortest digits that read back to the same value, written positionally (never with an
+    exponent), an integral value without a fraction"""
+    import math
+    import struct
+    from decimal import Decimal
+    if v != v:
+        return "NaN"
+    if math.isinf(v):
+        return "inf" if v > 0 else "-inf"
+    if single:
+        txt = None
+        for n in range(1, 10):
+            t = "%.*e" % (n - 1, v)
+            if struct.unpack("f", struct.pack("f", float(t)))[0] == v:
+                txt = t
+                break
+        txt = txt or repr(v)
+    else:
+        txt = repr(v)
+    out = format(Decimal(txt), "f")
+    if "." in out:
+        out = out.rstrip("0").rstrip(".")
+    if out in ("-0", "0") and math.copysign(1.0, v) < 0:
+        out = "-0"
+    return out
 
 
 def fmt_value(v):
@@ -195,7 +225,7 @@ def fmt_value(v):
     if isinstance(v, (int, str)):
         return str(v)
     if isinstance(v, float):
-        return repr(v)
+        return rust_float_display(v)
     if isinstance(v, Enum) and len(v.fields) == 1 and "0" in v.fields and not isinstance(v.fields["0"], (Enum, Opaque)):
         return fmt_value(v.fields["0"])
     raise Unknown("formatting of %r" % (v,))
@@ -286,6 +316,12 @@ class Interp:
             return v == p["v"]
         if k == "Range":
             lo, hi = p["lo"], p["hi"]
+            if isinstance(v, str) and len(v) == 1:
+                v = ord(v)                      # a char scrutinee against a char range
+            if isinstance(lo, str) and len(lo) == 1:
+                lo = ord(lo)
+            if isinstance(hi, str) and len(hi) == 1:
+                hi = ord(hi)
             if not isinstance(v, int):
                 raise Unknown("range on non-int")
             ok_lo = True if lo == "-inf" else v >= lo
@@ -319,12 +355,19 @@ class Interp:
     # ---- expressions ---------------------------------------------------
     def ev(self, e, env, depth=0):
         k = e.get("k")
+        if k == "Borrow" and e.get("mut") and e["e"].get("k") == "Deref":
+            inner_ = self.ev(e["e"]["e"], env, depth)      # `&mut *r`: a reborrow is the same reference
+            if isinstance(inner_, Ref):
+                return inner_
+            return inner_
         if k in ("Borrow", "Deref", "Coerce", "RawBorrow"):
             v = self.ev(e["e"], env, depth)
             if k == "Deref" and isinstance(v, Ref):
                 return v.get()
             return v
         if k == "Lit":
+            if e.get("t") == "bytes" and isinstance(e.get("b"), list):
+                return list(e["b"])
             if e.get("t") == "float" and isinstance(e.get("v"), str):
                 try:
                     return float(e["v"].replace("_", "").rstrip("f32").rstrip("f64") if e["v"][-3:] in ("f32", "f64") else e["v"].replace("_", ""))
@@ -502,6 +545,13 @@ class Interp:
                 if nm == "MAX":
                     return (1 << (bits - 1)) - 1 if signed else (1 << bits) - 1
                 return -(1 << (bits - 1)) if signed else 0
+            if ty in ("f32", "f64"):
+                fc = {"INFINITY": float("inf"), "NEG_INFINITY": float("-inf"), "NAN": float("nan"),
+                      "MAX": 3.4028234663852886e38 if ty == "f32" else 1.7976931348623157e308,
+                      "MIN": -3.4028234663852886e38 if ty == "f32" else -1.7976931348623157e308,
+                      "EPSILON": 1.1920928955078125e-07 if ty == "f32" else 2.220446049250313e-16}
+                if nm in fc:
+                    return fc[nm]
             raise Unknown("const " + e["path"])
         if k == "Call":
             return self.call(e, env, depth)
@@ -621,6 +671,11 @@ class Interp:
                 return a & b
             if op == "BitOr":
                 return a | b
+            if op == "Div" and (isinstance(a, float) or isinstance(b, float)):
+                if b == 0:
+                    import math as _m
+                    return float("nan") if (a == 0 or a != a) else _m.copysign(float("inf"), a) * (_m.copysign(1.0, b))
+                return a / b
             if op == "Div" and b != 0 and isinstance(a, int) and isinstance(b, int):
                 return abs(a) // abs(b) * (1 if (a >= 0) == (b >= 0) else -1)
             if op == "Rem" and b != 0 and isinstance(a, int) and isinstance(b, int):
@@ -804,6 +859,20 @@ class Interp:
             return v
         if (gen.startswith("core::option::Option::<T>::") or gen.startswith("core::result::Result::<T, E>::")) and \
                 short(gen) not in ("is_some", "is_none", "is_ok", "is_err"):
+            if short(gen) == "unwrap_or_default":
+                v0 = self.ev(args[0], env, depth)
+                if isinstance(v0, Enum) and v0.variant in ("Some", "Ok"):
+                    return v0.fields.get("0")
+                ty_ = e.get("ty") or ""
+                if ty_.startswith("alloc::vec::Vec"):
+                    return []
+                if ty_ in INT_BITS:
+                    return 0
+                if ty_ in ("alloc::string::String", "&str"):
+                    return ""
+                if ty_ == "bool":
+                    return False
+                raise Unknown("default of " + ty_)
             return self.option_method(short(gen), self.ev(args[0], env, depth), args[1:], env, depth)
         if gen in ("core::bool::<impl bool>::then_some", "core::bool::<impl bool>::then"):
             c0 = self.truth(self.ev(args[0], env, depth))
@@ -1014,7 +1083,7 @@ class Interp:
             # aborts must abort here too) and the text is assembled
             m = short(gen)
             if m.startswith("new_") and "Argument" in gen:
-                return FmtArg(self.ev(args[0], env, depth))
+                return FmtArg(self.ev(args[0], env, depth), (args[0].get("ty") or "").replace("&", "").strip(), debug=(m == "new_debug"))
             if "Arguments" in gen:
                 import facts as _F
                 tmpl = None
@@ -1038,9 +1107,29 @@ class Interp:
                     else:
                         if x is None or x >= len(vals):
                             raise Unknown("format argument index")
-                        out.append(fmt_value(vals[x].value if isinstance(vals[x], FmtArg) else vals[x]))
+                        fa = vals[x]
+                        fv = fa.value if isinstance(fa, FmtArg) else fa
+                        fv = fv.get() if isinstance(fv, Ref) else fv
+                        if isinstance(fa, FmtArg) and isinstance(fv, float) and fa.ty in ("f32", "f64"):
+                            t_ = rust_float_display(fv, single=(fa.ty == "f32"))
+                            if fa.debug and "." not in t_ and t_[-1:].isdigit():
+                                t_ += ".0"
+                            out.append(t_)
+                        else:
+                            out.append(fmt_value(fv))
                 return FmtArgs("".join(out))
             vals = [self.ev(a, env, depth) for a in args]
+            if m in ("write_fmt", "write_str", "write_char") and len(vals) == 2:
+                tgt = vals[0]
+                cur = tgt.get() if isinstance(tgt, Ref) else tgt
+                piece = vals[1].text if isinstance(vals[1], FmtArgs) else vals[1]
+                if isinstance(cur, str) and isinstance(piece, str):
+                    # write!(string, ..): the text is appended to the String itself
+                    if isinstance(tgt, Ref):
+                        tgt.set(cur + piece)
+                    else:
+                        self.assign(args[0], cur + piece, env, depth)
+                    return Enum("Result", "Ok", {"0": ()})
             for v in vals:
                 if isinstance(v, FmtArgs):
                     self.formatted.append(v.text)
@@ -1077,6 +1166,58 @@ class Interp:
                 i = b.find(xb) if m == "find" else b.rfind(xb)
                 return Enum("Option", "Some", {"0": i}) if i >= 0 else Enum("Option", "None")
             return {"starts_with": b.startswith(xb), "ends_with": b.endswith(xb), "contains": xb in b}[m]
+        if gen in ("alloc::string::String::new", "alloc::string::String::with_capacity"):
+            return ""
+        if gen in ("alloc::string::String::push", "alloc::string::String::push_str"):
+            cur = self.ev(args[0], env, depth)
+            target = cur if isinstance(cur, Ref) else None
+            cur = cur.get() if isinstance(cur, Ref) else cur
+            piece = self.ev(args[1], env, depth)
+            piece = piece.get() if isinstance(piece, Ref) else piece
+            if isinstance(piece, int) and not isinstance(piece, bool) and gen.endswith("::push") and 0 <= piece < 0x110000:
+                piece = chr(piece)
+            if not isinstance(cur, str) or not isinstance(piece, str):
+                raise Unknown("String::push on %r" % (cur,))
+            if target is not None:
+                target.set(cur + piece)
+            else:
+                self.assign(args[0], cur + piece, env, depth)
+            return ()
+        if gen in ("core::convert::From::from", "core::char::convert::<impl core::convert::From<u8> for char>::from") and e.get("ty") == "char":
+            v = self.ev(args[0], env, depth)
+            if isinstance(v, int):
+                return chr(v)
+        if gen == "core::str::<impl str>::parse":
+            v = self.ev(args[0], env, depth)
+            v = v.get() if isinstance(v, Ref) else v
+            ty = e.get("ty") or ""
+            if isinstance(v, str) and "Result<f64" in ty.replace("core::result::", ""):
+                # <f64 as FromStr>: the nearest double of a decimal text (correctly rounded, as python's float())
+                import re as _re
+                if _re.fullmatch(r"[+-]?(\d+\.?\d*|\.\d+)([eE][+-]?\d+)?", v):
+                    try:
+                        return Enum("Result", "Ok", {"0": float(v)})
+                    except OverflowError:
+                        return Enum("Result", "Ok", {"0": float("inf")})
+                return Enum("Result", "Err", {"0": Opaque("ParseFloatError")})
+            raise Unknown("parse of %r as %s" % (v, ty))
+        if gen in ("core::f64::<impl f64>::is_infinite", "core::f64::<impl f64>::is_nan", "core::f64::<impl f64>::is_finite",
+                   "core::f32::<impl f32>::is_infinite", "core::f32::<impl f32>::is_nan", "core::f32::<impl f32>::is_finite"):
+            import math as _m
+            v = self.ev(args[0], env, depth)
+            v = getattr(v, "v", v)
+            if isinstance(v, (int, float)):
+                return {"is_infinite": _m.isinf(v), "is_nan": _m.isnan(v), "is_finite": _m.isfinite(v)}[short(gen)]
+            raise Unknown("float classification of %r" % (v,))
+        if gen == "core::slice::<impl [T]>::split_at":
+            base = self.ev(args[0], env, depth)
+            base = base.get() if isinstance(base, Ref) else base
+            i = self.ev(args[1], env, depth)
+            if isinstance(base, (list, tuple)) and isinstance(i, int):
+                if i > len(base):
+                    raise Unknown("core::panicking: split_at(%d) of a slice of %d" % (i, len(base)))
+                return (list(base[:i]), list(base[i:]))
+            raise Unknown("split_at on %r" % (base,))
         if gen == "core::str::<impl str>::chars":
             v = self.ev(args[0], env, depth)
             if isinstance(v, Ref):
@@ -1097,7 +1238,11 @@ class Interp:
                 return list(v.encode("utf-8"))
             raise Unknown("bytes of %r" % (v,))
         if gen in ("alloc::string::String::as_str", "alloc::string::ToString::to_string", "alloc::borrow::ToOwned::to_owned", "core::str::<impl str>::to_string"):
-            return self.ev(args[0], env, depth)
+            v_ = self.ev(args[0], env, depth)
+            v1_ = v_.get() if isinstance(v_, Ref) else v_
+            if gen == "alloc::string::ToString::to_string" and isinstance(v1_, int) and not isinstance(v1_, bool):
+                return str(v1_)
+            return v_
         if gen in ("core::slice::<impl [T]>::len", "alloc::vec::Vec::<T, A>::len"):
             v = self.ev(args[0], env, depth)
             if isinstance(v, (list, tuple)):
@@ -1137,6 +1282,15 @@ class Interp:
                     return list(base[lo:hi])
                 raise Unknown("slice bounds (a run-time abort for these values)")
             raise Unknown("index")
+        if gen in ("core::slice::<impl [T]>::starts_with", "core::slice::<impl [T]>::ends_with"):
+            base = self.ev(args[0], env, depth)
+            x = self.ev(args[1], env, depth)
+            base = base.get() if isinstance(base, Ref) else base
+            x = x.get() if isinstance(x, Ref) else x
+            if isinstance(base, (list, tuple)) and isinstance(x, (list, tuple)):
+                n = len(x)
+                return (list(base[:n]) == list(x)) if gen.endswith("starts_with") else (n == 0 or list(base[-n:]) == list(x))
+            raise Unknown("starts_with on %r" % (base,))
         if gen == "core::slice::<impl [T]>::contains":
             base = self.ev(args[0], env, depth)
             x = self.ev(args[1], env, depth)
